@@ -7,12 +7,14 @@ fitted attributes (a stale cache is an extra attribute) and in their values (dee
 back on A.  Determinism: two fits under the same NumPy global seed agree exactly; where an integer
 random_state is documented to make the estimator deterministic, changing only the global seed changes nothing.
 """
+import warnings
+
 import numpy
 
 PROPERTY = "C03"
 LEVEL = "exploration"
 NEED_EXT = True
-REQUIRED = ["refit.outputs", "refit.state", "same_seed.outputs", "global_seed_independence",
+REQUIRED = ["refit.smallest_training_set", "refit.outputs", "refit.state", "same_seed.outputs", "global_seed_independence",
             "refit.after_set_params", "refit.after_failed_fit", "refit.frames", "two_instances", "hashseed.two_processes", "refit.after_interrupted_fit", "concurrent_fits"]
 RULE = ("fittable registered classes (23) x configurations x training-set pairs (A, B) differing in n, d, label set / "
         "vocabulary / categorical columns x {fit A, [query], fit B, fit A} x 3 seeds (thorough 12); thread-parallel "
@@ -461,6 +463,71 @@ def run_case(case, ctx):
                     ctx.violation(K + "refit/state-differs/stale-attribute-after-set_params",
                                   "after fit A, set_params(%s=...), fit B the object still carries %s" % (
                                       key, "; ".join(stale[:2])), cfg=cfg)
+        # ---- the smallest training set a fresh instance accepts: after a fit on A (and, for each alternative value, a
+        # set_params in between) the same instance accepts it too and gives the same model - requirements learnt from
+        # the previous fit (a context length, a number of clusters, a width) must not be applied to the next one
+        for key in [None] + (keys if spec.kind == "ts" else [keys[(sub + j) % len(keys)] for j in range(min(2, len(keys)))]):
+            try:
+                e = spec.make(vi)
+                upd = {}
+                if key is not None:
+                    cur = e.get_params(deep=True).get(key, None)
+                    if key not in e.get_params(deep=True):
+                        continue
+                    val, ok = alt_value(spec, key, cur, None, e)
+                    val2, _ = alt_value(spec, key, cur, None, spec.make(vi))
+                    if not ok:
+                        continue
+                    upd, upd2 = {key: val}, {key: val2}
+                else:
+                    upd2 = {}
+            except Exception:
+                continue
+            small, fresh = None, None
+            for k_rows in range(1, 13):
+                Bk = _head(B, k_rows)
+                if Bk is None:
+                    break
+                try:
+                    fr_ = spec.make(vi)
+                    fr_.set_params(**upd2)
+                    numpy.random.seed(sub + 23)
+                    with warnings.catch_warnings():
+                        warnings.simplefilter("ignore")
+                        spec.fit(fr_, _copy(Bk))
+                        Qk = spec.query(numpy.random.RandomState(9), Bk)
+                        of = spec.outputs(fr_, Qk)
+                    small, fresh = Bk, fr_
+                    break
+                except Exception:
+                    continue
+            if small is None:
+                ctx.excluded("smallest-training-set history: no head of B of 1-12 rows is accepted")
+                continue
+            cfg = {"class": spec.name, "variant": vi, "sub": sub, "rows_of_B": k_rows,
+                   "history": "A,%sB[:%d]" % ("" if key is None else "set_params(%s)," % key, k_rows)}
+            try:
+                numpy.random.seed(sub + 23)
+                with warnings.catch_warnings():
+                    warnings.simplefilter("ignore")
+                    spec.fit(e, _copy(A))
+                    if upd:
+                        e.set_params(**upd)
+                    numpy.random.seed(sub + 23)
+                    spec.fit(e, _copy(small))
+                    og = spec.outputs(e, Qk)
+            except Exception as ex:
+                ctx.hit("refit.smallest_training_set")
+                ctx.violation(K + "refit/raised-on-smallest-training-set/%s" % type(ex).__name__,
+                              "fit A, %sfit on the first %d rows of B raised %s: %s (a fresh instance accepts these rows)" % (
+                                  "" if key is None else "set_params(%s=...), " % key, k_rows, type(ex).__name__,
+                                  str(ex)[:120]), cfg=cfg)
+                continue
+            ctx.hit("refit.smallest_training_set")
+            bad = [m for m in of if m not in og or not same_out(of[m], og[m])]
+            if bad:
+                ctx.violation(K + "refit/outputs-differ-on-smallest-training-set", "after fit A the fit on the first %d rows "
+                              "of B gives another %s than a fresh instance" % (k_rows, bad[0]), cfg=cfg)
         # ---- the same two histories with DataFrames whose column names differ between A and B: what scikit-learn
         # records about the columns (feature_names_in_, n_features_in_) is fitted state as well
         fr = _frames(spec, A, B)
@@ -630,6 +697,25 @@ def _fquery(spec, D):
     if isinstance(Q, numpy.ndarray) and Q.ndim == 2 and Q.shape[1] == D["X"].shape[1]:
         return pandas.DataFrame(Q, columns=D["X"].columns)
     return Q
+
+
+def _head(D, k):
+    """the first k rows / documents of every component of a data set (None when it has fewer)"""
+    out = {}
+    for name, v in D.items():
+        if v is None:
+            out[name] = None
+        elif hasattr(v, "iloc"):
+            if len(v) < k:
+                return None
+            out[name] = v.iloc[:k].copy()
+        elif isinstance(v, (numpy.ndarray, list, tuple)):
+            if len(v) < k:
+                return None
+            out[name] = v[:k].copy() if isinstance(v, numpy.ndarray) else list(v[:k])
+        else:
+            out[name] = v
+    return out
 
 
 def _copy(D):
